@@ -15,6 +15,7 @@ ASSUMPTIONS = ["'trace does not increase', 'within tolerance' and feasibility of
 def run(ctx):
     n = pepsolve.r_order(ctx)
     pepsolve.r_ret(ctx)
+    pepsolve.r_primalflow(ctx)
     wrappers.r_heur(ctx)
     c16.r_options(ctx)
     ctx.floor("heuristic call sites", n, 3)
